@@ -93,6 +93,30 @@ def correspond(ctx):
         adds, outs = [], []
         expected_blobs = {}
         pics = []
+        pre = []
+        if rng.random() < 0.35:
+            # a start deck from another producer: image parts whose numbers are shared between extensions, start at 0 or
+            # leave gaps (the library's own numbering never produces these)
+            from pptx.opc.packuri import PackURI
+            taken = set()
+            for _k in range(rng.randint(2, 5)):
+                pb, pf, _dk = make_image(rng)
+                if pb in blob_id or any(pb == x[0] for x in pool):
+                    continue
+                blob_id[pb] = len(blob_id) + 1
+                pic = slides[0].shapes.add_picture(io.BytesIO(pb), 0, 0)
+                part = pic.part.related_part(pic._pic.blip_rId)
+                idx = rng.choice([0, 1, 1, 2, 2, 3, 5, 9])
+                while (idx, part.partname.ext) in taken:
+                    idx += 1
+                taken.add((idx, part.partname.ext))
+                part.partname = PackURI("/ppt/media/image%d.%s" % (idx, part.partname.ext))
+                pre.append((idx, part.partname.ext, blob_id[pb]))
+                expected_blobs[str(part.partname)] = pb
+            b0 = io.BytesIO(); prs.save(b0)
+            prs = Presentation(io.BytesIO(b0.getvalue()))
+            slides = list(prs.slides)
+            ctx.count("foreign-image-numbering-start-decks")
         nsteps = rng.randint(3, 20)
         order = list(range(len(pool))) if many else []
         for step in range(nsteps + len(order)):
@@ -171,7 +195,8 @@ def correspond(ctx):
                 # save + re-open in between: the same bytes must still be found and re-used
                 b = io.BytesIO(); prs.save(b)
                 check_zip(ctx, b.getvalue(), expected_blobs, blob_id)
-        add(f"c15.store ! {','.join(adds) or '!'}", ",".join(outs), ("store", hi))
+        pre_s = ",".join(f"{i}:{enc(e)}:{b_}" for i, e, b_ in pre) or "!"
+        add(f"c15.store {pre_s} {','.join(adds) or '!'}", ",".join(outs), ("store", hi))
         b = io.BytesIO(); prs.save(b)
         check_zip(ctx, b.getvalue(), expected_blobs, blob_id)
         for pic, blob in pics:
